@@ -203,8 +203,10 @@ class Interp:
         if isinstance(v, VIter):
             return len(v.items) > 0
         if isinstance(v, VDict):
+            if v.obj.items:
+                return True
             if v.obj.items is not None and not v.obj.extra_unknown:
-                return len(v.obj.items) > 0
+                return False
             return None
         if isinstance(v, VObj):
             inst = v.inst
